@@ -35,25 +35,58 @@ META = {
 }
 
 
+NO_DECISION = ('rows', 'void', 'invalid', 'rows_more', 'default', 'set_keyspace', 'unprepared', 'syntax')
+PREPARED_QUERY = 'SELECT v FROM ks1.t'
+
+
+def _timeout_owner(timer):
+    """the ResponseFuture whose client-timeout handler this connection timer runs, else None"""
+    fn = getattr(timer.callback, 'func', timer.callback)
+    return getattr(fn, '__self__', None) if getattr(fn, '__name__', '') == '_on_timeout' else None
+
+
 class H(explore.Harness):
     name = 'c14'
 
     def init(self):
         from vt.reqworld import ReqWorld
-        st = ReqWorld(self.params)
+        p = self.params
+        st = ReqWorld(p)
         st.late = []
         st.pages = 0
-        for i in range(self.params.get('n_exec', 1)):
-            st.execute('q%d' % i, **({'stmt_kw': {'fetch_size': 2}} if self.params.get('paged') else {}))
+        st.prepared = None
+        if p.get('prepared'):
+            # prepared through the real Session.prepare against the auto server, then the explorer takes over again
+            hold, st.server.hold, st.w.manual = st.server.hold, (lambda conn, req: False), False
+            st.prepared = st.session.prepare(PREPARED_QUERY)
+            st.w.settle()
+            st.server.hold, st.w.manual = hold, True
+        for i in range(p.get('n_exec', 1)):
+            if p.get('use'):
+                st.execute('q%d' % i, query='USE %s' % p['use'])
+            elif st.prepared is not None:
+                st.execute('q%d' % i, statement=st.prepared.bind(()))
+            else:
+                st.execute('q%d' % i, **({'stmt_kw': {'fetch_size': 2}} if p.get('paged') else {}))
+        st.extra = [[] for _ in st.futures]         # observers attached later by an 'attach' event
+        st.timed_out = [False for _ in st.futures]  # the client-timeout handler of the current fetch ran (and did not re-arm)
         return st
+
+    def kinds_for(self, req):
+        p = self.params
+        if req['op'] == 'PREPARE':
+            return p.get('prepare_kinds', ['default'])
+        if req['op'] == 'QUERY' and req.get('query', '').strip().upper().startswith('USE '):
+            return p.get('use_kinds', ['default', 'invalid'])
+        return p['kinds']
 
     def events(self, st):
         p = self.params
         evs = []
         pend = st.pending()
         for i in range(len(pend)):
-            for kind in p['kinds']:
-                if kind in ('rows', 'void', 'invalid', 'rows_more'):
+            for kind in self.kinds_for(pend[i].req):
+                if kind in NO_DECISION:
                     evs.append((('respond', i, kind, ''), 0))
                 else:
                     for d in p['decisions']:
@@ -69,6 +102,9 @@ class H(explore.Harness):
             for fi, f in enumerate(st.futures):
                 if f._event.is_set() and f.has_more_pages and st.pages < p.get('max_pages', 1):
                     evs.append((('next_page', fi), 0))
+        for fi in range(len(st.futures)):
+            if len(st.extra[fi]) < p.get('attach', 0):
+                evs.append((('attach', fi), 0))
         return evs
 
     def apply(self, st, ev):
@@ -78,6 +114,10 @@ class H(explore.Harness):
                 st.retry.next = (d, None)
             if kind == 'rows_more':
                 st.respond(i, 'rows', paging_state=b'ps1')
+            elif kind == 'default':
+                st.server.answer(st.pending()[i], deliver=True)
+            elif kind == 'unprepared':
+                st.respond(i, kind, query_id=st.prepared.query_id)
             else:
                 st.respond(i, kind)
         elif ev[0] == 'fault':
@@ -90,24 +130,39 @@ class H(explore.Harness):
                     st.server.pending.remove(q)
             p.conn.defunct(OSError(104, 'Connection reset by peer'))
         elif ev[0] == 'timer':
-            st.w.fire_timer(st.w.live_timers()[0])
+            t = st.w.live_timers()[0]
+            owner = _timeout_owner(t)
+            st.w.fire_timer(t)
+            if owner is not None and not any(_timeout_owner(t2) is owner for t2 in st.w.live_timers()):
+                for fi, f in enumerate(st.futures):
+                    if f is owner:
+                        st.timed_out[fi] = True
         elif ev[0] == 'task':
             st.w.run_task(ev[1])
         elif ev[0] == 'next_page':
             f = st.futures[ev[1]]
             st.pages += 1
+            st.timed_out[ev[1]] = False
             # a page fetch is a new execution of the same future; registered callbacks stay registered
             # (documented paging pattern) and must fire once more, for this page
-            st.observers[ev[1]].new_generation()
+            for o in [st.observers[ev[1]]] + st.extra[ev[1]]:
+                o.new_generation()
             f.start_fetching_next_page()
+        elif ev[0] == 'attach':
+            # the application attaches one more callback/errback pair now, whatever the request's progress
+            from vt.reqworld import Observer
+            o = Observer(st.futures[ev[1]], st.w, 'late')
+            o.generation = st.observers[ev[1]].generation
+            st.extra[ev[1]].append(o)
         st.w.deliver_outbox()
 
     def canon(self, st):
         futs = []
-        for f, o in zip(st.futures, st.observers):
+        for fi, (f, o) in enumerate(zip(st.futures, st.observers)):
             futs.append((len(o.results), len(o.errors), f._event.is_set(), type(f._final_exception).__name__,
                          f._query_retries, tuple(sorted(str(k) for k in f._errors)), f._paging_state, f._req_id,
-                         f._connection.vid if f._connection is not None else None))
+                         f._connection.vid if f._connection is not None else None,
+                         tuple((len(x.results), len(x.errors)) for x in st.extra[fi]), st.timed_out[fi]))
         return (tuple(futs), tuple(st.retry.calls), st.pending_canon(), st.timers_canon(), st.tasks_canon(),
                 st.conn_canon(), st.pages)
 
@@ -126,6 +181,27 @@ class H(explore.Harness):
             if o.n and not done:
                 part.violation('C14/callback-without-event', 'callback ran but result() would still block',
                                {'params': self.params, 'history': hist})
+            page = 'first' if o.generation == 0 else 'later'
+            # pairs attached by an 'attach' event (before or after the completion of this or an earlier page fetch):
+            # once per fetch, never both kinds, the same kind the first pair saw
+            for x in st.extra[fi]:
+                if x.results and x.errors:
+                    part.violation('C14/both-callback-and-errback/late-attached', 'callbacks and errbacks of a pair attached later both ran: %r'
+                                   % (x.order,), {'params': self.params, 'history': hist})
+                elif x.n > 1:
+                    part.violation('C14/completed-twice/late-attached', 'outcome delivered %d times to a pair attached later: %r'
+                                   % (x.n, x.order), {'params': self.params, 'history': hist})
+                elif done and x.n == 0:
+                    part.violation('C14/late-attached-pair-not-invoked/%s-page' % page,
+                                   'the %s page fetch is complete (first pair saw %r) but a pair attached by the application '
+                                   'in the course of the history was not invoked for it' % (page, o.order),
+                                   {'params': self.params, 'history': hist})
+                elif x.n and not done:
+                    part.violation('C14/callback-without-event/late-attached', 'pair attached later ran but result() would still block',
+                                   {'params': self.params, 'history': hist})
+                elif x.n == 1 and o.n == 1 and bool(x.results) != bool(o.results):
+                    part.violation('C14/observers-disagree', 'first pair saw %r, pair attached later saw %r' % (o.order, x.order),
+                                   {'params': self.params, 'history': hist})
             if done and o.n == 1:
                 try:
                     f.result()
@@ -152,6 +228,11 @@ class H(explore.Harness):
                 part.violation('C14/no-outcome-when-all-answered',
                                'every sent request is answered/failed and no task is queued, but the future is incomplete '
                                '(timers: %r)' % (st.timers_canon(),), {'params': self.params, 'history': hist})
+            if not done and st.timed_out[fi]:
+                part.violation('C14/no-outcome-after-timeout/%s-page' % page,
+                               'the client timeout of this fetch has fired (handler returned without re-arming itself) but the '
+                               'future is incomplete; queued tasks %r, unanswered requests %d, timers %r'
+                               % (st.tasks_canon(), len(st.pending()), st.timers_canon()), {'params': self.params, 'history': hist})
         if len(hist) >= 3:
             part.mark_nontrivial(repr(self.canon(st)))
 
@@ -172,7 +253,17 @@ def configs(ctx):
         # speculative delays that do not fit the remaining time (the speculative timer must hand over to the timeout timer)
         ('spec-tight', dict(base, spec=2, spec_delay=0.5, timeout=1.0, kinds=['rows', 'overloaded'], decisions=['RETRY_NEXT_HOST', 'RETHROW'], faults=False), 5),
         ('spec-long', dict(base, spec=1, spec_delay=2.0, timeout=1.0, kinds=['rows'], decisions=['RETHROW'], faults=False), 4),
-        ('paged', dict(base, spec=1, paged=True, kinds=['rows_more', 'rows', 'invalid'], decisions=['RETHROW'], faults=False), 7),
+        # one more callback pair attached at any moment of the history (before / after a page completed, after a failed
+        # fetch), up to two further fetches
+        ('paged', dict(base, spec=1, paged=True, kinds=['rows_more', 'rows', 'invalid'], decisions=['RETHROW'], faults=False,
+                       attach=1, max_pages=2), 7),
+        # continuations other than a retry: an application USE (answered by the coordinator, then propagated by the driver
+        # with one USE per pool, each answered / refused / lost / never answered) and an EXECUTE of a prepared statement
+        # the node does not know (re-prepare on the executor, PREPARE answered, EXECUTE sent again)
+        ('use', dict(base, spec=0, use='ks2', hold_use=True, kinds=['rows'], use_kinds=['default', 'invalid', 'overloaded'],
+                     decisions=['RETRY_NEXT_HOST', 'RETHROW']), 5),
+        ('prepared', dict(base, spec=0, prepared=True, kinds=['rows', 'unprepared', 'overloaded'], prepare_kinds=['default', 'invalid'],
+                          decisions=['RETRY_NEXT_HOST', 'RETHROW'], faults=False), 7),
     ]
     if ctx.thorough:
         q = [(n, p, d + 2) for n, p, d in q]
